@@ -213,3 +213,53 @@ def record_real_fit(fam):
         yield log
     finally:
         del dist.fit
+
+
+@contextlib.contextmanager
+def patch_attr(obj, name, value):
+    """harness-level rebinding that is active in symbolic AND concrete mode (recording / probing stubs)"""
+    old = getattr(obj, name)
+    setattr(obj, name, value)
+    try:
+        yield
+    finally:
+        setattr(obj, name, old)
+
+
+# ------------------------------------------------------------------------------------------------
+# scipy.integrate.nquad: probing stub
+#
+# contract (scipy documentation): nquad(func, ranges, args=()) integrates func(x0, ..., xn, *args) with xk running
+# over ranges[k]; returns (value, abserr).  The stub evaluates the integrand once at probe values (one per range,
+# supplied by the harness as declared inputs, so that they are symbolic in symbolic mode) and records
+# (probe values, integrand value, ranges, args); the returned integral value is a fresh unknown.
+# What is decided with it: WHICH integrand is integrated over WHICH variable with WHICH limits - not the value.
+
+
+class NquadProbe:
+    def __init__(self, h, lo=0.2, hi=6.0):
+        self.h = h
+        self.lo, self.hi = lo, hi
+        self.calls = []
+
+    def nquad(self, func, ranges, args=None, opts=None, full_output=False):
+        k = len(self.calls)
+        ranges = list(ranges)
+        ts = [self.h.real(f"t{k}_{j}", self.lo, self.hi) for j in range(len(ranges))]
+        extra = tuple(args) if args is not None else ()
+        val = func(*ts, *extra)
+        if isinstance(val, np.ndarray):   # the wrapped joint pdf returns a length-1 array, as scipy tolerates
+            if val.size != 1:
+                raise ValueError("integrand must be scalar-valued")
+            val = val.reshape(-1)[0]
+        if self.h.sym:
+            res = SR(z3.Real(f"nquad_result_{k}"))
+        else:
+            res = 1000.0 + k  # recognisable dummy: the value of the integral is never judged
+        self.calls.append({"probe": ts, "integrand": val, "ranges": ranges, "args": extra, "result": res})
+        return res, 0.0
+
+
+class IntegrateProxy:
+    def __init__(self, probe):
+        self.nquad = probe.nquad
